@@ -57,13 +57,18 @@ LitZ(x) == Z(x.neg, MFromDigits(x.ds, 10))     \* decimal digits, most significa
 Stuck == [t |-> "stuck"]
 TooBig == [t |-> "toobig"]
 
-(* bitwise operations on 64-bit machine integers: bit k of the result from bit k of the two's complement operands *)
+(* bitwise operations on 64-bit machine integers: digit by digit (radix 2^LgB) on the two's complement image, each digit  *)
+(* through the Bitwise community module (evaluated natively by TLC)                                                       *)
+BW == INSTANCE Bitwise
+DigAt(m, i) == IF i <= Len(m) THEN m[i] ELSE 0
 BitOp64(f(_, _), x, y) ==
-  WrapSI(FoldLeft(LAMBDA acc, k : IF f(BitTwos(x, k), BitTwos(y, k)) = 1 THEN Add(acc, Pow2Z(k)) ELSE acc, Zero,
-                  [i \in 1..64 |-> i - 1]))
-BAnd(p, q) == IF p = 1 /\ q = 1 THEN 1 ELSE 0
-BOr(p, q)  == IF p = 1 \/ q = 1 THEN 1 ELSE 0
-BXor(p, q) == IF p # q THEN 1 ELSE 0
+  LET mx == ModPow2(x, 64).mag  my == ModPow2(y, 64).mag
+      nd == (64 + LgB - 1) \div LgB
+      raw == [i \in 1..nd |-> f(DigAt(mx, i), DigAt(my, i))]
+  IN WrapSI(Z(FALSE, MNorm(raw)))
+BAnd(p, q) == BW!&(p, q)
+BOr(p, q)  == BW!|(p, q)
+BXor(p, q) == BW!^^(p, q)
 PrimApply(op, a) ==
   CASE op = "si.add" -> VSI(WrapSI(Add(a[1].z, a[2].z)))
     [] op = "si.sub" -> VSI(WrapSI(Sub(a[1].z, a[2].z)))
